@@ -78,6 +78,10 @@ def cases(tier, seed):
         for u in ("nm", "mm"):
             for c in CURRENTS[len(TERMS[d])][:2] + (["ramp"] if not quick else []):
                 out.append(dict(fam="run", dev=d, dens="coarse", cur=c, field="static", adaptive=False, k=2, screening=False, units=u, seeded=False))
+    for d in ("G1", "G3"):
+        for u in ("nm_uA", "um_nA", "mm_uA"):
+            for c in (CURRENTS[len(TERMS[d])][1], "ramp"):
+                out.append(dict(fam="run", dev=d, dens="coarse", cur=c, field="static", adaptive=False, k=2, screening=(u == "nm_uA" and not isinstance(c, str)), units=u, seeded=False))
     # non-initial starts
     for d in ("G1", "G3") if quick else ("G1", "G3", "G4"):
         for c in CURRENTS[len(TERMS[d])][:2]:
@@ -111,10 +115,12 @@ def cases(tier, seed):
 
 
 # ---------------------------------------------------------------------------------------------
-UNIT_SETS = {"um": ("um", "mT", "uA"), "nm": ("nm", "uT", "nA"), "mm": ("mm", "T", "mA")}
+UNIT_SETS = {"um": ("um", "mT", "uA"), "nm": ("nm", "uT", "nA"), "mm": ("mm", "T", "mA"),
+             # mismatched prefixes (current_units / length_units is not 1 A/m)
+             "nm_uA": ("nm", "uT", "uA"), "um_nA": ("um", "mT", "nA"), "mm_uA": ("mm", "T", "uA")}
 # the same physical quantities in the three systems: multiply the um/mT/uA numbers by these
-FIELD_SCALE = {"um": 1.0, "nm": 1e3, "mm": 1e-3}
-CURR_SCALE = {"um": 1.0, "nm": 1e3, "mm": 1e-3}
+FIELD_SCALE = {"um": 1.0, "nm": 1e3, "mm": 1e-3, "nm_uA": 1e3, "um_nA": 1.0, "mm_uA": 1e-3}
+CURR_SCALE = {"um": 1.0, "nm": 1e3, "mm": 1e-3, "nm_uA": 1.0, "um_nA": 1e3, "mm_uA": 1.0}
 
 
 SWITCH_PHASE = 2 * 2.0**-6  # two fixed steps per phase
@@ -210,7 +216,7 @@ def run_run(case):
     res.key = case_key(case)
     lu, fu, cu = UNIT_SETS[case["units"]]
     prior = case.get("prior")
-    dev = zoo.device(case["dev"], density=case["dens"], units=case["units"], memo=(prior is None))
+    dev = zoo.device(case["dev"], density=case["dens"], units=lu, memo=(prior is None))
     names = TERMS[case["dev"]]
     cs = 0.25 * CURR_SCALE[case["units"]] * case.get("cur_scale", 1.0)  # the invariant is linear in the currents: keep the drive gentle
     arg, func = current_func(case["cur"], names, cs, omit_idle=bool(case.get("omit_idle")))
